@@ -1059,6 +1059,13 @@ def eval_fn(ctx, c, rep):
     ctx.count("fn." + op + "." + impl.split(" ")[0] + ("." + impl.split(" ")[1] if not impl.startswith("ok") else ""))
     if impl.startswith("FOREIGN"):
         fail(ctx, f"C14/{op}/foreign-exception:{impl.split(' ')[1]}", f"dns.tsig.{op} raised {impl}", rep)
+    if op in ("digest", "sign"):
+        # Other Len is a 16-bit field: exactly the lengths 0..65535 can be digested
+        olen = len(rd.other)
+        if impl == "err ValueError" and olen <= 65535:
+            fail(ctx, f"C14/{op}/other-length-boundary", f"dns.tsig.{op} refuses other data of {olen} octets (a 16-bit length)", rep)
+        if impl.startswith("ok") and olen > 65535:
+            fail(ctx, f"C14/{op}/other-length-boundary", f"dns.tsig.{op} digests other data of {olen} octets, more than Other Len can say", rep)
 
 
 def eval_rdata(ctx, c, rep):
